@@ -5,7 +5,8 @@ from .. import lean, proto, gen, util
 
 REQUIRED = ['Petl.C06.' + n for n in (
     'join_eq_nested_loop leftjoin_eq_nested_loop outerjoin_perm join_relational antijoin_eq_filter '
-    'lookupjoin_eq_first_partner none_key_matches_none').split()]
+    'lookupjoin_eq_first_partner none_key_matches_none '
+    'crossjoin_view crossjoin_two crossjoin_assoc crossjoin_count crossjoin_two_getElem mem_crossjoin_iff').split()]
 
 KINDS = ['inner', 'left', 'right', 'outer', 'anti', 'lookup']
 FN = {'inner': 'join', 'left': 'leftjoin', 'right': 'rightjoin', 'outer': 'outerjoin', 'anti': 'antijoin', 'lookup': 'lookupjoin'}
